@@ -112,9 +112,18 @@ func prctl(option uintptr, args ...uintptr) error {
 
 // seccomp syscall wrapper.
 func seccomp(op uintptr, flags FilterFlag, uargs unsafe.Pointer) error {
-	_, _, e := syscall.Syscall(unix.SYS_SECCOMP, op, uintptr(flags), uintptr(uargs))
+	r, _, e := syscall.Syscall(unix.SYS_SECCOMP, op, uintptr(flags), uintptr(uargs))
 	if e != 0 {
 		return e
+	}
+
+	// If the threads can not be synchronized because one of them has a
+	// different filter, the kernel does not install the filter. It reports
+	// this by returning the ID of that thread (unless TSYNC_ESRCH is used,
+	// which turns it into an error code).
+	if r > 0 && op == seccompSetModeFilter &&
+		flags&FilterFlagTSync != 0 && flags&unix.SECCOMP_FILTER_FLAG_TSYNC_ESRCH == 0 {
+		return fmt.Errorf("thread %d has a different seccomp filter and can not be synchronized", r)
 	}
 	return nil
 }
